@@ -766,3 +766,9 @@ Proof.
   unfold sim. cbn. split; [reflexivity|]. split; [reflexivity|]. exists (s_cache s1). rewrite Ed2, Edr, rev_involutive. reflexivity.
 Qed.
 End Replay.
+
+Lemma stack_capacity_delta fence s size al p top' :
+  0 < al -> 0 <= fence -> 0 <= size ->
+  fs_alloc fence (s_top s) (cur_end s) size al = Some (p, top') ->
+  top' - s_top s = fence + align_off (s_top s + fence) al + size + fence.
+Proof. intros _ _ _ H. eapply fs_alloc_delta. exact H. Qed.
